@@ -6,18 +6,23 @@ import math
 
 from . import c02 as C02
 from . import c02_util as U
+from . import c11_ext as X
 from .common import add_failure, bump, new_outcome, rat, unrat
 
 PROP = "C11"
-PROPS_FILES = ["CogentModel/Props/C11.lean"]
-LEAN_TARGETS = ["CogentModel.Props.C11"]
+PROPS_FILES = ["CogentModel/Props/C11.lean", "CogentModel/Props/C11b.lean"]
+LEAN_TARGETS = ["CogentModel.Props.C11", "CogentModel.Props.C11b"]
 DRIVER = "drv_c11"
 TRUSTED = [
     "the pruning model lean/CogentModel/Model/Prune.lean (shared with C02), tied by exact-rational shadow evaluation on "
     "the original AND the transformed problems of this check",
     "the relations themselves are run on the real implementation: lnL(transformed problem) vs lnL(original), "
     "|delta| <= 1e-8*|lnL| (x k for k-fold column repetition)",
-    "cogent3's own PhyloNode.rooted_at / rooted_with_tip produce the re-rooted trees (checked to keep tip set, edge names and lengths)",
+    "cogent3's own PhyloNode.rooted_at / rooted_with_tip / unrooted produce the re-rooted trees; their SHAPE (which edge every node "
+    "hangs below, children up to order, lengths, refusals) is compared with the executable model rootedAt / unrootedM "
+    "(Model/PruneInvariance.lean), for which rooted_at_is_reroot / lh_rooted_at / lh_unrooted_bifurcating_root are proved",
+    "the renamed-states problem is built by the harness: letters through the IUPAC sets, motif probabilities, and rate parameters "
+    "solved (least squares on the model's predicate masks, per parameter scope) so that the renamed generator is proportional to the original one",
 ]
 ASSUMPTIONS = [
     "reversibility (detailed balance of every edge's P w.r.t. the root distribution) and P(s)P(t)=P(s+t) are hypotheses of the "
@@ -282,9 +287,11 @@ TRANSFORMS = {
     "columns": t_columns, "seq_order": t_seq_order, "children": t_children, "repeat": t_repeat,
     "relabel": t_relabel, "relabel_permute": t_relabel_permute, "reroot": t_reroot, "split": t_split, "unrooted": t_unrooted,
     "midpoint": t_midpoint, "root_on_edge": t_root_on_edge,
+    "state_perm": X.t_state_perm, "contract": X.t_contract, "bifurcating": X.t_bifurcating,
 }
 REVERSIBLE_ONLY = ("reroot", "unrooted", "midpoint", "root_on_edge")
-CONTINUOUS_ONLY = ("split", "unrooted", "midpoint", "root_on_edge")
+CONTINUOUS_ONLY = ("split", "unrooted", "midpoint", "root_on_edge", "contract", "bifurcating")
+SHADOWED = ("reroot", "split", "children", "unrooted", "midpoint", "root_on_edge", "state_perm", "contract", "bifurcating")
 
 
 def applicable(spec, name):
@@ -299,7 +306,7 @@ def jobs_for(base, rng, full):
     """the list of (relation name, thunk) run on one base problem"""
     jobs = []
     for t in ("columns", "seq_order", "children", "children", "repeat", "relabel", "relabel_permute", "relabel_permute", "unrooted", "midpoint",
-              "root_on_edge", "root_on_edge"):
+              "root_on_edge", "root_on_edge", "state_perm", "state_perm", "contract", "contract", "bifurcating"):
         if applicable(base, t):
             jobs.append((t, (lambda t=t: TRANSFORMS[t](base, rng))))
     if applicable(base, "unrooted"):
@@ -331,6 +338,8 @@ def _rel_sig(tname, base, spec2):
         t = "reroot-" + str(spec2.get("how"))
     elif tname == "relabel_permute":
         t = "relabel_permute-" + str(spec2.get("how", "")).split(":")[0]
+    elif tname == "contract":
+        t = "contract-" + ("star" if spec2.get("contracted_all") else "root-child" if spec2.get("contracted_at_root") else "deeper")
     return f"rel:{t}:{base['kind']}:bins={'y' if base.get('bins', 1) > 1 else 'n'}" + (":tied-rate-terms" if base.get("adversarial") and "zero-length-edge" not in t else "")
 
 
@@ -430,12 +439,14 @@ def _pairs(ctx, rng, plan, out, collect=None, only=None, adversarial=False):
             bump(out, "relation", tname if tname != "reroot" else "reroot-" + spec2.get("how", ""))
             bump(out, "kind", kind)
             bump(out, "model", name)
+            if "contracted" in spec2:
+                bump(out, "max_node_degree_after_contraction", max(len(n["children"]) for n in [spec2["tree"]] + [c for _, c in _edges(spec2["tree"])]))
             if "split_piece" in spec2:
                 bump(out, "split_piece_log10", "zero" if spec2["split_piece"] == 0 else int(math.floor(math.log10(spec2["split_piece"]))))
             inp = dict(relation=tname, k=k, original=C02._slim(orig), transformed=C02._slim(spec2))
             try:
                 if orig is not base:
-                    key = (orig["newick"], len(orig["rules"]))
+                    key = (orig["newick"], repr(orig["rules"]))
                     if key not in ref:
                         lfo, lo = _lnl(orig)
                         ref[key] = (lo, _slack(lfo))
@@ -456,7 +467,7 @@ def _pairs(ctx, rng, plan, out, collect=None, only=None, adversarial=False):
                 add_failure(out, "spec", f"lnL changes under {tname}", inp, want, l2, sig=_rel_sig(tname, orig, spec2))
             else:
                 out["nontrivial"].add((name, base["seed"], tname, spec2.get("target"), spec2.get("split_edge"), spec2.get("split_piece")))
-            if collect is not None and ncollected < 3 and tname in ("reroot", "split", "children", "unrooted", "midpoint", "root_on_edge"):
+            if collect is not None and ncollected < 3 and tname in SHADOWED:
                 collect.append(spec2)
                 ncollected += 1
             if len(out["samples"]) < 8 and tname in ("reroot", "split", "unrooted", "midpoint", "root_on_edge") and rng.random() < 0.2:
@@ -506,7 +517,11 @@ def spec_check(ctx, budget):
         "1e-6/1e-8/5e-9/1e-9/1e-12, very unequal and equal splits; tip and node names from families of mutual prefixes / "
         "suffixes / substrings (t1,t10,t100,t,1t / a,ab,abc / Hum,Human ...); branch lengths incl. 0.0 and tiny positive ones; "
         "nucleotide models all, codon/protein rotating with the seed (all in thorough), a dinucleotide model; trees 3-7 tips with "
-        "polytomies, ambiguity, gaps, 1-4 bins, scoped parameters; tolerance 1e-8*|lnL|; non-trivial = (model, problem, relation, target) that held"
+        "polytomies, ambiguity, gaps, 1-4 bins, scoped parameters; the four nucleotides renamed by a random permutation that is an "
+        "automorphism of the model's parameter structure (letters incl. ambiguity codes, motif probabilities and rate parameters per scope "
+        "move together; twice); one internal edge (or EVERY internal edge: star tree) given length 0 by a rule vs the tree with those nodes "
+        "dissolved (twice); cogent3's own bifurcating() with the new edges at length 0; "
+        "tolerance 1e-8*|lnL|; non-trivial = (model, problem, relation, target) that held"
     )
     rng = ctx.subrng(f"spec{budget}")
     U.BIG_BINS = ctx.thorough
@@ -540,7 +555,7 @@ def _hypotheses(ctx, specs, rng, out, limit):
     for spec in specs:
         if done >= limit:
             break
-        if spec["model"] in U.DISCRETE or any(k in spec for k in ("split_edge", "how", "merged_zero", "has_zero")):
+        if spec["model"] in U.DISCRETE or any(k in spec for k in ("split_edge", "how", "merged_zero", "has_zero", "contracted", "added_edges")):
             continue
         done += 1
         rev = spec["model"] not in NONREV
@@ -599,6 +614,10 @@ def correspondence(ctx):
         "plus the theorem hypotheses measured exactly on the implementation's matrices (driver `hyp`: detailed balance of every "
         "edge/bin P w.r.t. the root distribution, row sums, P(upper piece)*P(lower piece) == P(edge) through the model's matMul "
         "for one split edge per problem; reversible models must meet them to 1e-9, GN/ssGN are the control); "
+        "the executable tree operations rootedAt / unrootedM vs cogent3's rooted_at (every node incl. tips, which both refuse, and the root) / "
+        "rooted_with_tip (every tip) / unrooted() on random trees with polytomies, unary nodes and unary roots (shape up to sibling order, "
+        "edge under every node, lengths incl. the merged one); the modelled calcQ vs the real StationaryQ.calcQ (the method with arbitrary "
+        "inputs, and every nucleotide + one protein model, where the symmetry of the exchangeabilities is measured); "
         "non-trivial = >= 2 unique columns / hypothesis met on a reversible problem"
     )
     rng = ctx.subrng("corr")
@@ -606,14 +625,15 @@ def correspondence(ctx):
     rel = new_outcome()
     plan = _plan(ctx, rng, 100, 10, 6, 2) if ctx.thorough else _plan(ctx, rng, 8, 1, 1, 1)
     specs = []
-    _pairs(ctx, rng, [(m, 4) for m, _ in plan], rel, collect=specs,
-           only=("reroot", "split", "children", "unrooted", "midpoint", "root_on_edge"))
+    _pairs(ctx, rng, [(m, 4) for m, _ in plan], rel, collect=specs, only=SHADOWED)
     for k, v in rel["dist"].items():
         if k in ("relation",):
             out["dist"]["transformed_" + k] = v
     # relational failures found on the way are genuine spec failures
     out["failures"] += [f for f in rel["failures"] if f["kind"] == "spec"]
     C02.evaluate(ctx, specs, None, "impl", 0, out, "corr")
+    X.shape_tie(ctx, rng, out, 150 if ctx.thorough else 12)
+    X.calcq_tie(ctx, rng, out, 400 if ctx.thorough else 40)
     _hypotheses(ctx, specs, rng, out, 200 if ctx.thorough else 8)
     return out
 
